@@ -221,10 +221,12 @@ def run_callee(cg, B, types, variadic=False, ret='int', extra_locals=()):
             va.fields.update({'ty': t, 'align': 1, 'is_local': 1, 'name': '__va_area__'})
             chain.append(va)
         extras = []
-        for j, (sz, al, is_arr) in enumerate(extra_locals):
+        for j, loc in enumerate(extra_locals):
+            sz, al, is_arr = loc[:3]
+            tal = loc[3] if len(loc) > 3 else (1 if is_arr else min(al, 16))
             v = Obj('Obj', lazy=False, label='v%d' % j)
             t = Obj('Type', lazy=False, label='vt%d' % j)
-            t.fields.update({'kind': B.E['TY_ARRAY'] if is_arr else B.E['TY_STRUCT'], 'size': sz, 'align': min(al, 8) if is_arr else al, 'base': B.ty(it, 'char') if is_arr else 0, 'array_len': sz})
+            t.fields.update({'kind': B.E['TY_ARRAY'] if is_arr else B.E['TY_STRUCT'], 'size': sz, 'align': tal, 'base': B.ty(it, 'char') if is_arr else 0, 'array_len': sz})
             v.fields.update({'ty': t, 'align': al, 'is_local': 1, 'name': 'v%d' % j})
             extras.append(v); chain.append(v)
         box['extras'] = extras
